@@ -79,50 +79,59 @@ Notation "'do' x '<-' r ';' k" := (rbind r (fun x => k)) (at level 200, x patter
 
 (* ------------------------------------------------------------------------------------------ *)
 (** * Writer *)
+Fixpoint iterM {A} (f : A -> encoder -> res encoder) (l : list A) (e : encoder) : res encoder :=
+  match l with
+  | [] => Ok e
+  | x :: t => do e1 <- f x e; iterM f t e1
+  end.
+
 Section Writer.
   Variable tbl : nat -> sdesc.
+
+  (** the value of one field, after its header; [ws] writes a nested struct; [r] is the enclosing record *)
+  Definition write_value (ws : nat -> list mval -> encoder -> res encoder) (r : list mval)
+             (k : kind) (v : mval) (e : encoder) : res encoder :=
+    match k, v with
+    | KBool, MInt _ => Ok e                                   (* carried by the field header *)
+    | KI8, MInt z => write_byte z e
+    | KI16, MInt z => write_i16 z e
+    | KI32, MInt z => write_i32 z e
+    | KI64, MInt z => write_i64 z e
+    | KBin, MBytes (Some bs) => write_binary (Some bs) (Z.of_nat (length bs)) e
+    | KBin, MBytes None => write_binary None 0 e
+    | KStr, MBytes s => write_string s e
+    | KStruct sid', MRec sub => ws sid' sub e
+    | KListI32 _ _, MArr l =>
+        do e1 <- write_list_begin 5 (Z.of_nat (length l)) e;
+        iterM (fun x ea => match x with MInt z => write_i32 z ea | _ => Err ERR_SHAPE end) l e1
+    | KListStr _ _, MArr l =>
+        do e1 <- write_list_begin 8 (Z.of_nat (length l)) e;
+        iterM (fun x ea => match x with MBytes s => write_string s ea | _ => Err ERR_SHAPE end) l e1
+    | KListStruct sid' _ _, MArr l =>
+        do e1 <- write_list_begin 12 (Z.of_nat (length l)) e;
+        iterM (fun x ea => match x with MRec sub => ws sid' sub ea | _ => Err ERR_SHAPE end) l e1
+    | KInline sid' _, _ => ws sid' r e                           (* same record *)
+    | KSetSkip _, _ => do e1 <- write_struct_begin e; write_struct_end e1
+    | _, _ => Err ERR_SHAPE
+    end.
+
+  (** `if (present) { thrift_write_field_header(..); write value }` *)
+  Definition write_field (ws : nat -> list mval -> encoder -> res encoder) (r : list mval)
+             (f : field) (e : encoder) : res encoder :=
+    if present f r then
+      match nth_error r (f_slot f) with
+      | Some v => do e1 <- write_field_header (wire_type (f_kind f) v) (f_id f) e;
+                  write_value ws r (f_kind f) v e1
+      | None => Err ERR_SHAPE
+      end
+    else Ok e.
 
   Fixpoint write_struct (fuel : nat) (sid : nat) (r : list mval) (e : encoder) {struct fuel} : res encoder :=
     match fuel with
     | O => Fault OutOfFuel
     | S fuel' =>
-      let write_value := fun (k : kind) (v : mval) (e : encoder) =>
-        match k, v with
-        | KBool, MInt _ => Ok e                                   (* carried by the field header *)
-        | KI8, MInt z => write_byte z e
-        | KI16, MInt z => write_i16 z e
-        | KI32, MInt z => write_i32 z e
-        | KI64, MInt z => write_i64 z e
-        | KBin, MBytes (Some bs) => write_binary (Some bs) (Z.of_nat (length bs)) e
-        | KBin, MBytes None => write_binary None 0 e
-        | KStr, MBytes s => write_string s e
-        | KStruct sid', MRec sub => write_struct fuel' sid' sub e
-        | KListI32 _ _, MArr l =>
-            do e1 <- write_list_begin 5 (Z.of_nat (length l)) e;
-            fold_left (fun acc x => do ea <- acc;
-                                    match x with MInt z => write_i32 z ea | _ => Err ERR_SHAPE end) l (Ok e1)
-        | KListStr _ _, MArr l =>
-            do e1 <- write_list_begin 8 (Z.of_nat (length l)) e;
-            fold_left (fun acc x => do ea <- acc;
-                                    match x with MBytes s => write_string s ea | _ => Err ERR_SHAPE end) l (Ok e1)
-        | KListStruct sid' _ _, MArr l =>
-            do e1 <- write_list_begin 12 (Z.of_nat (length l)) e;
-            fold_left (fun acc x => do ea <- acc;
-                                    match x with MRec sub => write_struct fuel' sid' sub ea | _ => Err ERR_SHAPE end) l (Ok e1)
-        | KInline sid' _, _ => write_struct fuel' sid' r e           (* same record *)
-        | KSetSkip _, _ => do e1 <- write_struct_begin e; write_struct_end e1
-        | _, _ => Err ERR_SHAPE
-        end in
       do e0 <- write_struct_begin e;
-      do e1 <- fold_left (fun acc f =>
-                 do ea <- acc;
-                 if present f r then
-                   match nth_error r (f_slot f) with
-                   | Some v => do eb <- write_field_header (wire_type (f_kind f) v) (f_id f) ea;
-                               write_value (f_kind f) v eb
-                   | None => Err ERR_SHAPE
-                   end
-                 else Ok ea) (s_fields (tbl sid)) (Ok e0);
+      do e1 <- iterM (write_field (write_struct fuel') r) (s_fields (tbl sid)) e0;
       write_struct_end e1
     end.
 
@@ -133,77 +142,88 @@ End Writer.
 
 (* ------------------------------------------------------------------------------------------ *)
 (** * Parser *)
+Definition validate_count (count max err : Z) : res unit :=
+  if (count <? 0) || (max <? count) then Err err else Ok tt.
+
+(** arena_strdup_thrift / arena_bindup_thrift *)
+Definition read_str (d : decoder) : res (mval * decoder) :=
+  do (bs, d1) <- read_binary d; Ok (MBytes (Some (cstr bs)), d1).
+Definition read_bin (d : decoder) : res (mval * decoder) :=
+  do (bs, d1) <- read_binary d; Ok (MBytes (match bs with [] => None | _ => Some bs end), d1).
+Definition read_i32_m (d : decoder) : res (mval * decoder) :=
+  do (z, d1) <- read_i32 d; Ok (MInt z, d1).
+
+Fixpoint repeat_read {A} (rd : decoder -> res (A * decoder)) (n : nat) (d : decoder) : res (list A * decoder) :=
+  match n with
+  | O => Ok ([], d)
+  | S n' => do (x, d1) <- rd d; do (xs, d2) <- repeat_read rd n' d1; Ok (x :: xs, d2)
+  end.
+
+(** `while (thrift_read_field_begin(dec, &type, &field_id)) handle(type, field_id)`; every iteration
+    consumes at least the header byte *)
+Fixpoint parse_loop (handle : N -> Z -> list mval -> decoder -> res (list mval * decoder))
+         (k : nat) (r : list mval) (d : decoder) : res (list mval * decoder) :=
+  match k with
+  | O => Fault OutOfFuel
+  | S k' =>
+    do (h, d1) <- read_field_begin d;
+    match h with
+    | None => Ok (r, d1)
+    | Some (ty, id) => do (r2, d2) <- handle ty id r d1; parse_loop handle k' r2 d2
+    end
+  end.
+
 Section Parser.
   Variable tbl : nat -> sdesc.
 
-  Definition validate_count (count max err : Z) : res unit :=
-    if (count <? 0) || (max <? count) then Err err else Ok tt.
+  (** the body of one `case` of the switch; [ps] parses a nested struct into the record given *)
+  Definition parse_field (ps : nat -> list mval -> decoder -> res (list mval * decoder))
+             (f : field) (ty : N) (r : list mval) (d : decoder) : res (list mval * decoder) :=
+    let r1 := set_has f r in
+    let fresh := fun (sid' : nat) (d : decoder) =>
+      do (sub, d1) <- ps sid' (s_init (tbl sid')) d; Ok (MRec sub, d1) in
+    match f_kind f with
+    | KBool => do (b, d1) <- read_bool d; Ok (set_nth (f_slot f) (MInt (if b then 1 else 0)) r1, d1)
+    | KI8 => do (z, d1) <- read_byte d; Ok (set_nth (f_slot f) (MInt z) r1, d1)
+    | KI16 => do (z, d1) <- read_i16 d; Ok (set_nth (f_slot f) (MInt z) r1, d1)
+    | KI32 => do (z, d1) <- read_i32 d; Ok (set_nth (f_slot f) (MInt z) r1, d1)
+    | KI64 => do (z, d1) <- read_i64 d; Ok (set_nth (f_slot f) (MInt z) r1, d1)
+    | KBin => do (v, d1) <- read_bin d; Ok (set_nth (f_slot f) v r1, d1)
+    | KStr => do (v, d1) <- read_str d; Ok (set_nth (f_slot f) v r1, d1)
+    | KStruct sid' => do (v, d1) <- fresh sid' d; Ok (set_nth (f_slot f) v r1, d1)
+    | KListI32 max err =>
+        do (_, count, d1) <- read_list_begin d;
+        do _u <- validate_count count max err;
+        do (xs, d2) <- repeat_read read_i32_m (Z.to_nat count) d1;
+        Ok (set_nth (f_slot f) (MArr xs) r1, d2)
+    | KListStr max err =>
+        do (_, count, d1) <- read_list_begin d;
+        do _u <- validate_count count max err;
+        do (xs, d2) <- repeat_read read_str (Z.to_nat count) d1;
+        Ok (set_nth (f_slot f) (MArr xs) r1, d2)
+    | KListStruct sid' max err =>
+        do (_, count, d1) <- read_list_begin d;
+        do _u <- validate_count count max err;
+        do (xs, d2) <- repeat_read (fresh sid') (Z.to_nat count) d1;
+        Ok (set_nth (f_slot f) (MArr xs) r1, d2)
+    | KInline sid' pre => ps sid' (apply_pre pre r1) d
+    | KSetSkip pre => do d1 <- thrift_skip ty d; Ok (apply_pre pre r1, d1)
+    end.
 
-  (** arena_strdup_thrift / arena_bindup_thrift *)
-  Definition read_str (d : decoder) : res (mval * decoder) :=
-    do (bs, d1) <- read_binary d; Ok (MBytes (Some (cstr bs)), d1).
-  Definition read_bin (d : decoder) : res (mval * decoder) :=
-    do (bs, d1) <- read_binary d; Ok (MBytes (match bs with [] => None | _ => Some bs end), d1).
-
-  Fixpoint repeat_read {A} (n : nat) (rd : decoder -> res (A * decoder)) (d : decoder) : res (list A * decoder) :=
-    match n with
-    | O => Ok ([], d)
-    | S n' => do (x, d1) <- rd d; do (xs, d2) <- repeat_read n' rd d1; Ok (x :: xs, d2)
+  (** `switch (field_id) { case ...: ...; default: thrift_skip(dec, type); }` *)
+  Definition handle_field (ps : nat -> list mval -> decoder -> res (list mval * decoder)) (fs : list field)
+             (ty : N) (id : Z) (r : list mval) (d : decoder) : res (list mval * decoder) :=
+    match find_field id fs with
+    | Some f => parse_field ps f ty r d
+    | None => do d1 <- thrift_skip ty d; Ok (r, d1)
     end.
 
   Fixpoint parse_struct (fuel : nat) (sid : nat) (r : list mval) (d : decoder) {struct fuel} : res (list mval * decoder) :=
     match fuel with
     | O => Fault OutOfFuel
     | S fuel' =>
-      let fresh := fun (sid' : nat) (d : decoder) =>
-        do (sub, d1) <- parse_struct fuel' sid' (s_init (tbl sid')) d; Ok (MRec sub, d1) in
-      (* the body of one `case` of the switch *)
-      let parse_field := fun (f : field) (ty : N) (r : list mval) (d : decoder) =>
-        let r1 := set_has f r in
-        match f_kind f with
-        | KBool => do (b, d1) <- read_bool d; Ok (set_nth (f_slot f) (MInt (if b then 1 else 0)) r1, d1)
-        | KI8 => do (z, d1) <- read_byte d; Ok (set_nth (f_slot f) (MInt z) r1, d1)
-        | KI16 => do (z, d1) <- read_i16 d; Ok (set_nth (f_slot f) (MInt z) r1, d1)
-        | KI32 => do (z, d1) <- read_i32 d; Ok (set_nth (f_slot f) (MInt z) r1, d1)
-        | KI64 => do (z, d1) <- read_i64 d; Ok (set_nth (f_slot f) (MInt z) r1, d1)
-        | KBin => do (v, d1) <- read_bin d; Ok (set_nth (f_slot f) v r1, d1)
-        | KStr => do (v, d1) <- read_str d; Ok (set_nth (f_slot f) v r1, d1)
-        | KStruct sid' => do (v, d1) <- fresh sid' d; Ok (set_nth (f_slot f) v r1, d1)
-        | KListI32 max err =>
-            do (_, count, d1) <- read_list_begin d;
-            do _u <- validate_count count max err;
-            do (xs, d2) <- repeat_read (Z.to_nat count) (fun d => do (z, d') <- read_i32 d; Ok (MInt z, d')) d1;
-            Ok (set_nth (f_slot f) (MArr xs) r1, d2)
-        | KListStr max err =>
-            do (_, count, d1) <- read_list_begin d;
-            do _u <- validate_count count max err;
-            do (xs, d2) <- repeat_read (Z.to_nat count) read_str d1;
-            Ok (set_nth (f_slot f) (MArr xs) r1, d2)
-        | KListStruct sid' max err =>
-            do (_, count, d1) <- read_list_begin d;
-            do _u <- validate_count count max err;
-            do (xs, d2) <- repeat_read (Z.to_nat count) (fresh sid') d1;
-            Ok (set_nth (f_slot f) (MArr xs) r1, d2)
-        | KInline sid' pre => parse_struct fuel' sid' (apply_pre pre r1) d
-        | KSetSkip pre => do d1 <- thrift_skip ty d; Ok (apply_pre pre r1, d1)
-        end in
-      (* `while (thrift_read_field_begin(dec, &type, &field_id))` *)
-      let loop := fix loop (k : nat) (r : list mval) (d : decoder) {struct k} : res (list mval * decoder) :=
-        match k with
-        | O => Fault OutOfFuel
-        | S k' =>
-          do (h, d1) <- read_field_begin d;
-          match h with
-          | None => Ok (r, d1)
-          | Some (ty, id) =>
-            match find_field id (s_fields (tbl sid)) with
-            | Some f => do (r2, d2) <- parse_field f ty r d1; loop k' r2 d2
-            | None => do d2 <- thrift_skip ty d1; loop k' r d2
-            end
-          end
-        end in
       do d0 <- read_struct_begin d;
-      do (r1, d1) <- loop (S (length (d_rest d0))) r d0;
+      do (r1, d1) <- parse_loop (handle_field (parse_struct fuel') (s_fields (tbl sid))) (S (length (d_rest d0))) r d0;
       Ok (r1, read_struct_end d1)
     end.
 
